@@ -552,7 +552,12 @@ func (x *Exec) ghostField(e *Env, base TV, name string) (TV, bool) {
 	st := x.ghostSort(g)
 	h := e.st.Heap(x, hn, ArraySort(SInt, st.sort))
 	e.cands.addRef(cur.T)
-	return TV{Select(h, cur.T), st.ty}, true
+	v := Select(h, cur.T)
+	if isSliceSort(st.sort) {
+		// a ghost sequence has a length like any slice value
+		e.fact(And(mk(SBool, "(>= %s 0)", SlLen(v)), mk(SBool, "(<= %s 281474976710656)", SlLen(v))))
+	}
+	return TV{v, st.ty}, true
 }
 
 func (x *Exec) ghostSort(g *GhostField) specType {
